@@ -41,9 +41,14 @@ def run(facts, rep, ctx):
 # at displacement 1.  (type, 24-bit LE size, flag byte 0x40 = second token is a reference, literal, reference)
 LZ11_EDGE = (0x11, 0x11, 0x01, 0x01, 0x40, 0x41, 0x1F, 0xFF, 0xF0, 0x00)        # 1 + 0x10110 bytes from 10
 LZ10_EDGE = (0x10, 0x13, 0x00, 0x00, 0x40, 0x41, 0xF0, 0x00)                    # 1 + 18 bytes from 8
-WITNESSES = {LZ10: [("the longest LZ10 run", LZ10_EDGE)],
+LZ10_EMPTY = (0x10, 0x00, 0x00, 0x00)          # what compress(&[]) emits: a header that declares zero bytes
+LZ11_EMPTY = (0x11, 0x00, 0x00, 0x00)
+LZ10_ONE = (0x10, 0x01, 0x00, 0x00, 0x00, 0x41)  # one literal
+WITNESSES = {LZ10: [("the longest LZ10 run", LZ10_EDGE), ("the empty LZ10 stream", LZ10_EMPTY), ("a one-byte LZ10 stream", LZ10_ONE)],
              LZ13: [("the longest LZ11 run (bare)", LZ11_EDGE), ("the longest LZ11 run (0x13 wrapper)", (0x13, 0x11, 0x01, 0x01) + LZ11_EDGE),
-                    ("a bare LZ10 stream", LZ10_EDGE), ("the stored form", (0x00, 0x02, 0x00, 0x00, 0x41, 0x42))]}
+                    ("a bare LZ10 stream", LZ10_EDGE), ("the stored form", (0x00, 0x02, 0x00, 0x00, 0x41, 0x42)),
+                    ("the empty stored form", (0x00, 0x00, 0x00, 0x00)), ("the empty LZ11 stream (bare)", LZ11_EMPTY),
+                    ("the empty LZ11 stream (0x13 wrapper)", (0x13, 0x00, 0x00, 0x00) + LZ11_EMPTY), ("the empty LZ10 stream (bare)", LZ10_EMPTY)]}
 
 
 def pre_decoder_rejections(facts, rep, R6):
